@@ -90,13 +90,15 @@ META.update({
         note="Orderer.get_order (assumed), make_patch sort_key / PatchTree.sort not under a discharged contract",
     ),
     "C09": dict(
-        technique="contract-based deductive verification of common.apply (loop-free: complete path enumeration, z3+cvc5), match_deploy_rule, make_cmd_params, fill_cmd_params, cmd_paths and lemma no_commit_when_disabled; " + _B + " for flattening and deploy rule parameters",
+        technique="contract-based deductive verification of common.apply (loop-free: complete path enumeration, z3+cvc5), match_deploy_rule, make_cmd_params, fill_cmd_params, apply_deploy_rulebook, cmd_paths and lemma no_commit_when_disabled; " + _B + " for flattening and deploy rule parameters",
         text="exploration + proved links: common.apply is proved equal to the pinned per-vendor session table for all hardware flags (hierarchy axiom "
              "as precondition) and the no-commit-when-disabled lemma is proved over it; cmd_paths and _indent_blocks are proved relative "
              "to the assumed token-stream contract of blocks_and_context (sent depth == shown depth lemma); match_deploy_rule is proved to walk the command's "
              "block path through the rule tree; make_cmd_params / fill_cmd_params are proved to give a command the timeout and one Question per dialog of its "
-             "rule, (30 s, none) without a rule. patch()/cmd_paths agreement end to end, block exits, "
-             "apply_deploy_rulebook body (grouping by session wrapper): bounded layer (PatchTrees depth<=4, 12 hardware models, corpus). 3 known findings "
+             "rule, (30 s, none) without a rule; apply_deploy_rulebook is proved to send, per maximal run of commands sharing a session wrapper, the wrapper's "
+             "enter commands, the run's commands in patch order at their depth, and the wrapper's leave commands (relative to the opaque apply logic, a "
+             "groupby model and one declared ownership assumption). patch()/cmd_paths agreement end to end, block exits, the token stream of "
+             "blocks_and_context: bounded layer (PatchTrees depth<=4, 12 hardware models, corpus). 3 known findings "
              "(cmd_paths dict collapses repeated commands).",
         note="blocks_and_context assumed; apply_deploy_rulebook bounded only",
     ),
